@@ -11,8 +11,8 @@ using namespace vf; using namespace mxh;
 
 static Bytes msg_bytes(int idx, size_t n) { Bytes b(n); for (size_t i = 0; i < n; i++) b[i] = (uint8_t) (0x20 + ((idx * 131 + i * 7 + (i >> 8)) % 90)); return b; }
 
-enum Op { OP_NONE, OP_FLIP, OP_TYPE, OP_VERSION, OP_LENFIELD, OP_TRUNC_FIX, OP_EXTEND_FIX, OP_DROP, OP_DUP, OP_SWAP, OP_REPLAY, OP_REFLECT, OP_PARALLEL, OP_IV, OP_INJECT_RANDOM, OP_CUT_TAIL, OP_INJECT_CCS, OP_N };
-static const char *op_name[] = { "none", "flip-bit", "set-type", "set-version", "set-length-field", "truncate+fix-length", "extend+fix-length", "drop", "duplicate", "swap", "replay-earlier", "reflect-own-record", "splice-parallel-session", "overwrite-iv/nonce", "inject-random-record", "cut-tail", "inject-plaintext-ccs" };
+enum Op { OP_NONE, OP_FLIP, OP_TYPE, OP_VERSION, OP_LENFIELD, OP_TRUNC_FIX, OP_EXTEND_FIX, OP_DROP, OP_DUP, OP_SWAP, OP_REPLAY, OP_REFLECT, OP_PARALLEL, OP_IV, OP_INJECT_RANDOM, OP_CUT_TAIL, OP_INJECT_CCS, OP_LONGPAD, OP_LONGPAD_FLIP, OP_N };
+static const char *op_name[] = { "none", "flip-bit", "set-type", "set-version", "set-length-field", "truncate+fix-length", "extend+fix-length", "drop", "duplicate", "swap", "replay-earlier", "reflect-own-record", "splice-parallel-session", "overwrite-iv/nonce", "inject-random-record", "cut-tail", "inject-plaintext-ccs", "long-cbc-padding", "long-cbc-padding+flip-in-padding" };
 
 struct Session {
     Pair p; int ver; Suite su; bool dtls;
@@ -38,6 +38,31 @@ static bool send_one(Endpoint &e, const Bytes &m, std::vector<Bytes> &units, boo
            for (auto &r : rs) { units.emplace_back(e.wire_out.begin() + r.off, e.wire_out.begin() + r.off + r.hdr + r.len); end = r.off + r.hdr + r.len; }
            if (end != e.wire_out.size()) return false; e.wire_out.clear(); }
     return true;
+}
+
+extern "C" int vfh_aes_cbc_write_key(const ssl_t *, unsigned char *, int);
+// CBC suites: rebuild a genuine record with `extra` more blocks of padding (legal up to 255 pad bytes; the MAC does not cover padding),
+// using the sender's own write key.  Returns the number of ciphertext blocks that decrypt to padding only, and the record offset of
+// the first of them.
+static bool repad(Endpoint &snd, Bytes &rec, size_t HDR, unsigned extra, size_t &pad_blk_off, size_t &pad_blks) {
+    uint8_t key[32]; int keylen = vfh_aes_cbc_write_key(snd.ssl, key, sizeof key);
+    if (keylen <= 0) return false;
+    if (rec.size() < HDR + 48 || (rec.size() - HDR) % 16) return false;
+    size_t n = rec.size() - HDR - 16; const uint8_t *iv = rec.data() + HDR;
+    Bytes ptx(n); psAesCbc_t ctx;
+    if (psAesInitCBC(&ctx, iv, key, (uint8_t) keylen, PS_AES_DECRYPT) < 0) return false;
+    psAesDecryptCBC(&ctx, rec.data() + HDR + 16, ptx.data(), (uint32_t) n); psAesClearCBC(&ctx);
+    size_t pad = ptx.back(); if (pad + 1 > n) return false;
+    for (size_t j = 0; j <= pad; j++) if (ptx[n - 1 - j] != pad) return false;
+    size_t npad = pad + 16 * extra; if (npad > 255) return false;
+    size_t dm = n - pad - 1; ptx.resize(dm); ptx.insert(ptx.end(), npad + 1, (uint8_t) npad);
+    Bytes ct(ptx.size());
+    if (psAesInitCBC(&ctx, iv, key, (uint8_t) keylen, PS_AES_ENCRYPT) < 0) return false;
+    psAesEncryptCBC(&ctx, ptx.data(), ct.data(), (uint32_t) ptx.size()); psAesClearCBC(&ctx);
+    rec.resize(HDR + 16); rec.insert(rec.end(), ct.begin(), ct.end());
+    size_t L = rec.size() - HDR; rec[HDR - 2] = (uint8_t) (L >> 8); rec[HDR - 1] = (uint8_t) L;
+    size_t first = (dm + 15) / 16; pad_blks = ptx.size() / 16 - first; pad_blk_off = HDR + 16 + 16 * first;
+    return pad_blks > 0;
 }
 
 static size_t g_tls13_pad_block = 0;   // TLS 1.3: record padding block size set on the sender (RFC 8446 5.4), 0 = none
@@ -71,13 +96,21 @@ static void run_script(Tape &t, Ctx &c, int ver, const Suite &su, bool c2s, std:
         for (size_t j = 0; j <= gapK; j++) { Bytes m = msg_bytes(100 + (int) j, 6 + j % 9); m[0] = (uint8_t) ('a' + j % 26); m[1] = (uint8_t) ('A' + (j / 26) % 26); std::vector<Bytes> u; if (!send_one(*s.snd, m, u, true) || u.size() != 1) VF_FAIL("harness-send-failed", "gap burst; %s", desc.c_str()); O.push_back(u[0]); pt.push_back(m); }
         c.count(fmt("dtls-window-gap:%zu", gapK));
     }
+    // long CBC padding: the re-padded record stands for the sender's original from here on (it is a record the peer could have sent)
+    size_t lp_off = 0, lp_blks = 0; bool modifies = false;
+    if (op == OP_LONGPAD || op == OP_LONGPAD_FLIP) {
+        unsigned extra = 1 + (unsigned) (opc >> 32) % 15;
+        if (ver == TLS13 || su.aead || !repad(*s.snd, O[opa % O.size()], HDR, extra, lp_off, lp_blks)) op = OP_FLIP;
+        else c.count(fmt("long-padding-extra-blocks:%u", extra));
+    }
     if (c.verbose) for (auto &o : O) fprintf(stderr, "  unit: %s\n", hex(o.data(), std::min(o.size(), HDR)).c_str());
     // --- apply the edit
     std::vector<Bytes> E = O; size_t n = O.size();
     size_t i = opa % n; Bytes &r = E[i];
     bool cut = false; size_t cut_at = 0; bool ccs_injected = false;
     switch (op) {
-    case OP_NONE: break;
+    case OP_NONE: case OP_LONGPAD: break;
+    case OP_LONGPAD_FLIP: { size_t blk = opb % lp_blks; if (lp_blks > 2 && (opb >> 8) % 4) blk = opb % (lp_blks - 2); size_t bit = opc % 128; r[lp_off + 16 * blk + bit / 8] ^= (uint8_t) (1 << (bit % 8)); c.count(blk + 2 < lp_blks ? "flip-in-inner-padding-block" : "flip-in-last-two-padding-blocks"); break; }
     case OP_FLIP: { size_t bit = opb % (r.size() * 8); r[bit / 8] ^= (uint8_t) (1 << (bit % 8)); break; }
     case OP_TYPE: { uint8_t nt = (uint8_t) opb; if (nt == r[0]) nt ^= 1; r[0] = nt; break; }
     case OP_VERSION: { uint16_t v = (uint16_t) opb; if (r[1] == (v >> 8) && r[2] == (v & 255)) v ^= 1; r[1] = (uint8_t) (v >> 8); r[2] = (uint8_t) v; break; }
@@ -102,6 +135,7 @@ static void run_script(Tape &t, Ctx &c, int ver, const Suite &su, bool c2s, std:
         if (opc & 1) { E[i].insert(E[i].begin(), ccs.begin(), ccs.end()); } else E.insert(E.begin() + i, ccs);
         ccs_injected = true; break; }
     }
+    modifies = op == OP_FLIP || op == OP_TYPE || op == OP_VERSION || op == OP_LENFIELD || op == OP_TRUNC_FIX || op == OP_EXTEND_FIX || op == OP_IV || op == OP_LONGPAD_FLIP;
     // --- reference model
     size_t p = 0; while (p < E.size() && p < O.size() && E[p] == O[p]) p++;
     Bytes expect; for (size_t j = 0; j < p; j++) expect.insert(expect.end(), pt[j].begin(), pt[j].end());
@@ -127,7 +161,9 @@ static void run_script(Tape &t, Ctx &c, int ver, const Suite &su, bool c2s, std:
         std::vector<int> used(pt.size(), 0);
         for (auto &m : s.rcv->delivered_msgs) { bool ok = false; for (size_t j = 0; j < pt.size(); j++) if (!used[j] && pt[j] == m) { used[j] = 1; ok = true; break; }
             VF_CHECK(ok, "dtls-delivered-datagram-not-sent-or-duplicated", "DTLS delivered %zu bytes (%s) that are not an as-yet-undelivered peer message; %s", m.size(), hex(m.data(), m.size(), 16).c_str(), desc.c_str()); }
-        if (op == OP_NONE) VF_CHECK(s.rcv->delivered_msgs.size() == pt.size(), "unedited-stream-not-delivered", "unedited DTLS datagrams: delivered %zu of %zu; %s", s.rcv->delivered_msgs.size(), pt.size(), desc.c_str());
+        // a record modified in transit is rejected or dropped: its message never arrives, not even unchanged
+        if (modifies && i < pt.size()) for (auto &m : s.rcv->delivered_msgs) VF_CHECK(m != pt[i], "dtls-modified-record-delivered", "DTLS delivered the message of record %zu although the record was modified in transit (%s); %s", i, op_name[op], desc.c_str());
+        if (op == OP_NONE || op == OP_LONGPAD) VF_CHECK(s.rcv->delivered_msgs.size() == pt.size(), "unedited-stream-not-delivered", "unedited DTLS datagrams: delivered %zu of %zu; %s", s.rcv->delivered_msgs.size(), pt.size(), desc.c_str());
     } else {
         if (ccs_injected && ver == TLS13) {
             // a skipped CCS is not a modification of a protected record: everything the peer sent may still arrive, nothing else may
@@ -142,8 +178,9 @@ static void run_script(Tape &t, Ctx &c, int ver, const Suite &su, bool c2s, std:
         VF_CHECK(is_prefix && s.rcv->delivered.size() == expect.size(), !is_prefix ? "delivered-data-beyond-authentic-prefix" : "authentic-prefix-not-delivered",
                  "delivered %zu bytes, reference model says exactly %zu (records before first edit: %zu of %zu); dead=%d; %s", s.rcv->delivered.size(), expect.size(), p, O.size(), dead, desc.c_str());
         if (hostile_complete) VF_CHECK(dead, "modified-record-did-not-end-session", "a modified/foreign complete record at position %zu did not end the session (rc=%d); %s", p, s.rcv->last_rc, desc.c_str());
-        if (op == OP_NONE) VF_CHECK(!dead, "unedited-stream-killed-session", "unedited stream ended the session rc=%d; %s", s.rcv->last_rc, desc.c_str());
+        if (op == OP_NONE || op == OP_LONGPAD) VF_CHECK(!dead, "unedited-stream-killed-session", "unedited stream ended the session rc=%d; %s", s.rcv->last_rc, desc.c_str());
     }
+    if (op == OP_LONGPAD) c.nontrivial(fmt("%d|%04x|%d|longpad", ver, su.id, c2s));
     if (op != OP_NONE && p < O.size()) c.nontrivial(fmt("%d|%04x|%d|%d|%zu", ver, su.id, c2s, op, std::min(p, (size_t) 3)));
 }
 
